@@ -901,6 +901,14 @@ SEEDS["C10_uninstall_forgets_typechecker"] = ("C10", [(H, """            sys.met
             pass  # already removed
         Typechecker.lookup.pop(self.hook._typechecker.get_hash(), None)
 """)], "C10.6")
+SEEDS["C04_cm_in_storage_restores_only_on_exception"] = ("C04", [("@diff", "benign/S7/1.diff", None), (S, """        if not self.matched:
+            set_shape_memo(*self._backups)""", """        if exc_type is not None:
+            set_shape_memo(*self._backups)""")], "C04.1")
+SEEDS["C04_cm_in_storage_snapshot_aliases_live"] = ("C04", [("@diff", "benign/S7/1.diff", None), (S, """            single_memo.copy(),
+            variadic_memo.copy(),""", """            single_memo,
+            variadic_memo.copy(),""")], "C04")
+SEEDS["C04_finally_restore_polarity_flipped"] = ("C04", [("@diff", "benign/RZ/4.diff", None), (P, """            if not matched:""", """            if matched:""")], "C04.1")
+SEEDS["C04_tuple_snapshot_is_live_tuple"] = ("C04", [("@diff", "benign/R5/1.diff", None), (P, """        backups = tuple([memo.copy() for memo in memos])""", """        backups = tuple([memo for memo in memos])""")], "C04")
 SEEDS["C18_code_memo_blind_to_checker"] = ("C18", [(H, """class Typechecker:
     lookup = {}
 """, """_compiled_code = {}
